@@ -5,7 +5,7 @@ Open Scope N_scope.
 (* case value:
    [ flags ; world ; steps ]
    flags = [socks_fixed; traffic_fixed; dns_fixed; notify_fixed; aux]
-   world = [ maps ; codes ; doms ; online ; bind([[conn;client]..]) ]      maps = [[id;listen;target;socks;sent;recv]..]  codes = [[id;owner;act]..]  doms = [[id;owner]..]
+   world = [ maps ; codes ; doms ; online ; bind([[conn;client]..]) ; cluster mode? ; clients connected on another node ]      maps = [[id;listen;target;socks;sent;recv]..]  codes = [[id;owner;act]..]  doms = [[id;owner]..]
    step  = [ connkind ; who ; cmd ; resp ; obj? ; tgt? ; dir ; sent ; recv ; valid ; claim ; observed ]
            connkind 0 unknown / 1 fresh / 2 pending / 3 long-lived connection #who
            | [ 4 ; conn ; client ; ... ; observed ]   registry event: connection re-authenticates as client
@@ -24,7 +24,8 @@ Definition dec_world (v : tval) : world :=
   let ds := map dec_dom (vl (vnth 2 v)) in
   {| w_maps := ms; w_codes := cs; w_doms := ds; w_online := map vn (vl (vnth 3 v));
      w_bind := map (fun e => (vn (vnth 0 e), vn (vnth 1 e))) (vl (vnth 4 v));
-     w_nm := lenN ms; w_nc := lenN cs; w_nd := lenN ds |}.
+     w_nm := lenN ms; w_nc := lenN cs; w_nd := lenN ds;
+     w_xnode := vbool (vnth 5 v); w_remote := map vn (vl (vnth 6 v)) |}.
 Definition dec_optn (v : tval) : option N := match vopt v with Some x => Some (vn x) | None => None end.
 Definition dec_kind (v who : tval) : connkind :=
   match vn v with 0 => KUnknown | 1 => KFresh | 2 => KPending | _ => KConn (vn who) end.
